@@ -501,6 +501,7 @@ def rule_r12(facts, col, rule_id="C03.R12"):
 def run(ctx):
     facts = ctx.facts("default")
     from . import c02
+    from .c19 import _Retag as c19_Retag
     sfacts = c02.stream_view(facts)      # the ring's entry points with private helpers / lock-and-run closures substituted in
     rule_r1(facts, ctx)
     rule_r2(sfacts, ctx)
@@ -516,6 +517,8 @@ def run(ctx):
     from . import c02
     c02.rule_r7(sfacts, ctx, rule_id="C03.R10")
     ctx.floor("C03.R10", 1, "atomic commit: tags under the lock acquisition that advances wpos")
+    c04.rule_r1(facts, c19_Retag(ctx, "C04.R1", "C03.R14"))     # two reads that are not one snapshot: liveness must be read first (seed s9-c03)
+    ctx.floor("C03.R14", 3, "end-of-stream verdicts of the read ends (same rule as C04.R1)")
     c01.rule_r4(facts, ctx, rule_id="C03.R8")
     from . import c19
     # a release that is not checked against the fill level (`consume_all()`: rpos = wpos, used = 0) frees samples the other side
